@@ -2,6 +2,8 @@
 fn main() {
     let args = vdirect::parse_args();
     let ctx = vcore::Ctx::new(&args.property, args.tier);
+    // a function under test that does not return never produces the specified answer: own violation
+    vdirect::start_watchdog(&args.property, args.tier);
     let code = match &args.replay {
         Some(path) => vdirect::replay(&ctx, &args.property, path),
         None => vdirect::run(&ctx, &args.property),
